@@ -418,6 +418,14 @@ def malformed_cases():
             shapes.append([(b, arg, 'open'), 'A', ('else', '', 'open'), 'B', ('else', '', 'open'), 'C', (b, '', 'close')])
     for c in ('else', 'elif', 'except', 'finally'):
         shapes.append(['A', (c, '', 'close'), 'B'])                                                  # end form at top level
+    # tag names are matched exactly in every syntax: a name that differs in case only is an unknown tag
+    for nm, arg in (('IF', 'x'), ('If', 'x'), ('In', 's'), ('WITH', 'o'), ('Try', ''), ('Unless', 'x'), ('LET', 'q=p')):
+        low = nm.lower()
+        shapes.append([(nm, arg, 'open'), 'A', (nm, '', 'close')])
+        shapes.append([(low, arg, 'open'), 'A', (nm, '', 'close')])
+        shapes.append([(nm, arg, 'open'), 'A', (low, '', 'close')])
+    shapes.append([('if', 'x', 'open'), 'A', ('Else', '', 'open'), 'B', ('if', '', 'close')])
+    shapes.append([('try', '', 'open'), 'A', ('EXCEPT', '', 'open'), 'B', ('try', '', 'close')])
     out = []
     for sh in shapes:
         spell = []
